@@ -136,12 +136,18 @@ def install_time_contract(eng):
     eng.models['_ZN9djinterop4util8parse_ftERKNSt7__cxx1112basic_stringIcSt11char_traitsIcESaIcEEE'] = parse_ft
 
 
-def install_abstract_v2(eng, fail='none', rows_mode='one', null='never', row_exists=True, sane_ints=True, concrete_blobs=True, fail_reads=False):
+def install_abstract_v2(eng, fail='none', rows_mode='one', null='never', row_exists=True, sane_ints=True, concrete_blobs=True, fail_reads=False, sym_text=0):
     CONCRETE_BLOBS[0] = concrete_blobs
     def blob(st, s_, col):
         cols = select_columns(s_.sql)
         name = cols[col] if col < len(cols) else ''
         return v2_blob(st, name)
+    def text(st, s_, col):
+        # stored text of arbitrary content (sym_text non-NUL bytes): two text columns of one row need not agree with each other
+        out = []
+        for i in range(sym_text):
+            b = st.new_input('text%d_%d' % (col, i), 8, 'env'); st.pc.append(b != 0); out.append(b)
+        return out
     def coltype(st, s_, col):
         cols = select_columns(s_.sql)
         name = (cols[col] if col < len(cols) else '').lower()
@@ -176,6 +182,7 @@ def install_abstract_v2(eng, fail='none', rows_mode='one', null='never', row_exi
     if rows_mode != 'one': max_rows = 1
     else: max_rows = 2
     cfg = {'fail': fail, 'blob': blob, 'coltype': coltype, 'rows': rows, 'max_rows': max_rows, 'null': null, 'column': column, 'row_exists': row_exists, 'fail_reads': fail_reads}
+    if sym_text: cfg['text'] = text
     models_sqlite.install(eng, cfg)
     models_zlib.install_identity(eng)
     install_time_stubs(eng)
@@ -257,7 +264,7 @@ V1_TEXT = {'path', 'filename', 'text', 'uuidofexternaldatabase', 'uri', 'title',
 V1_BLOBS = {'trackdata', 'highresolutionwaveformdata', 'overviewwaveformdata', 'beatdata', 'quickcues', 'loops'}
 OPNAMES.update({(1, k): 'v1 ' + v for k, v in list(OBSERVERS_V2.items()) + list(MUTATORS_V2.items())})
 
-def install_abstract_v1(eng, fail='none', rows_mode='one', null='never', row_exists=True, sane_ints=True, concrete_blobs=True, fail_reads=False):
+def install_abstract_v1(eng, fail='none', rows_mode='one', null='never', row_exists=True, sane_ints=True, concrete_blobs=True, fail_reads=False, sym_text=0):
     CONCRETE_BLOBS[0] = concrete_blobs
     def name_of(s_, col):
         cols = select_columns(s_.sql)
@@ -287,6 +294,12 @@ def install_abstract_v1(eng, fail='none', rows_mode='one', null='never', row_exi
             return ('int', v)
         return None
     cfg = {'fail': fail, 'blob': blob, 'coltype': coltype, 'rows': rows, 'max_rows': 2 if rows_mode == 'one' else 1, 'null': null, 'column': column, 'row_exists': row_exists, 'fail_reads': fail_reads}
+    def text(st, s_, col):
+        out = []
+        for i in range(sym_text):
+            b = st.new_input('text%d_%d' % (col, i), 8, 'env'); st.pc.append(b != 0); out.append(b)
+        return out
+    if sym_text: cfg['text'] = text
     models_sqlite.install(eng, cfg)
     models_zlib.install_identity(eng)
     def op_done(st, a):
